@@ -8,8 +8,9 @@ import YaegiVerif.Generated.C13
 
    CFG = (unrestricted specialStdio stdinFile stdoutFile stderrFile)
    keys SET…                               → (keys "path" …)            binPkg after Use(stdlib.Symbols) (+ gated sets)
-   import (SET…) FORM full dir base srcHas → y=bin|src|error
-   exit CFG fn pkg name | exit CFG method pkg name m | exit CFG flagset handling → y=panics|exits|returns|unknown
+   import (SET…) FORM full dir base (TREE…) → y=bin|src|error        TREE = the package paths the source tree has
+   exit CFG fn pkg name | exit CFG method pkg name m | exit CFG flagset handling | exit CFG flagsetinit handling
+                                           → y=panics|exits|returns|unknown
    envsrc CFG name                         → y=virt|host|unknown
    io CFG fn pkg name | io CFG builtin name | io CFG logger pkg name → y=<stream>
    bind CFG pkg name                       → y=override|host|hostVar|hostType|const|loc|locType|other|absent
@@ -19,7 +20,7 @@ import YaegiVerif.Generated.C13
      OP = (set k v) (unset k) (clear) (get k) (lookup k) (environ) (expand s)
    opts special unrestricted ARGS ENV stdin stdout stderr TAGS fs gopath
      ARGS, ENV, TAGS = (n) for a nil slice | (s "a" …) for a non-nil one; stdin/stdout/stderr = nil|file|other
-                                           → (args opt "a" …|host|unknown) (fparse …) (clname …) (environ virt (k v)…|host|unknown)
+                                           → (args opt "a" …|host|unknown) (fparse …) (clname head ARGS|host0|unknown) (environ virt (k v)…|host|unknown)
                                              (println D) (logprint D) (builtin D) (scan D) (osstdout D) (osstderr D) (osstdin D) (clout D)
                                              (tags given "a" …|dflt "what"|unknown) (gopath …) (fs …) (unrestricted 0|1|unknown) -/
 namespace YaegiVerif.Driver.C13
@@ -148,7 +149,10 @@ def handleOpts (o : Options) (h : Host) : String :=
   " ".intercalate
     ["(args " ++ showArgsSrc (scriptArgsSrc F o h) ++ ")",
      "(fparse " ++ showArgsSrc (flagParseSrc F o h) ++ ")",
-     "(clname " ++ showArgsSrc (cmdLineNameSrc F o h) ++ ")",
+     "(clname " ++ (match cmdLineNameKind F (cfgOf F o h) with
+        | .argsHead => "head " ++ showArgsSrc (interpArgsSrc F o)
+        | .hostArg0 => "host0"
+        | .unknown => "unknown") ++ ")",
      "(environ " ++ (match scriptEnviron F o h with
         | .virt e => "virt " ++ showPairs e
         | .host => "host"
@@ -179,10 +183,10 @@ def handle (args : List Sexp) : String :=
     (match sets.mapM Sexp.atom? with
      | some ss => "(keys " ++ " ".intercalate ((binPkgOf (keysWith ss)).map qb) ++ ")"
      | none => "bad-op")
-  | [.atom "import", sets, form, .atom full, .atom dir, .atom base, srcHas] =>
-    (match sets.atoms?, parseForm form, srcHas.bool? with
-     | some ss, some f, some sh =>
-       let r := importSpec (binPkgOf (keysWith ss)) (fun _ => sh) f ⟨full, dir, base⟩
+  | [.atom "import", sets, form, .atom full, .atom dir, .atom base, tree] =>
+    (match sets.atoms?, parseForm form, tree.atoms? with
+     | some ss, some f, some tr =>
+       let r := importSpec (binPkgOf (keysWith ss)) (fun ip => tr.contains ip) f ⟨full, dir, base⟩
        "y=" ++ (match r with | .bin .. => "bin" | .src .. => "src" | .error _ => "error")
      | _, _, _ => "bad-op")
   | [.atom "exit", cfg, .atom "fn", .atom p, .atom n] =>
@@ -196,6 +200,10 @@ def handle (args : List Sexp) : String :=
   | [.atom "exit", cfg, .atom "flagset", .atom h] =>
     (match parseCfg cfg with
      | some c => "y=" ++ showOutcome (exitOutcome F c (.flagSet h))
+     | none => "bad-op")
+  | [.atom "exit", cfg, .atom "flagsetinit", .atom h] =>
+    (match parseCfg cfg with
+     | some c => "y=" ++ showOutcome (exitOutcome F c (.flagSetInit h))
      | none => "bad-op")
   | [.atom "envsrc", cfg, .atom n] =>
     (match parseCfg cfg with
